@@ -1,7 +1,8 @@
 #!/bin/sh
 # usage: bin/try_mutant.sh <patch.diff> <prop> [<prop> ...]
 # Runs the quick checks against a mutated copy of the repository WITHOUT touching /repo (other
-# work may be building against it): scratch worktree + private harness copy + private target dir.
+# work may be building against it): scratch worktree + private harness copy + private target dir;
+# replays and evidence of these runs go to build/mutrun-replays and build/mutrun-evidence.
 # (Equivalent to `git -C /repo apply <patch>; bin/check …; git -C /repo checkout -- .`, which is
 # what to use when nothing else is building against /repo.)
 set -u
@@ -17,6 +18,6 @@ sed -i "s#path = \"/repo\"#path = \"$WT\"#" $H/Cargo.toml $H/np/Cargo.toml
 cd /verif
 for p in "$@"; do
   echo "== $p"
-  SPECS_REPO=$WT VERIF_HARNESS=$H VERIF_TARGET=/verif/build/mutrun-target timeout 1200 bin/check "$p" --tier quick 2>&1 | grep -E "VIOLATION|KNOWN|error|Traceback" | head -5
+  SPECS_REPO=$WT VERIF_HARNESS=$H VERIF_TARGET=/verif/build/mutrun-target VERIF_REPLAYS=/verif/build/mutrun-replays VERIF_EVIDENCE=/verif/build/mutrun-evidence timeout 1200 bin/check "$p" --tier quick 2>&1 | grep -E "VIOLATION|KNOWN|error|Traceback" | head -5
 done
 git -C /repo worktree remove --force $WT
